@@ -122,9 +122,9 @@ class Specs:
                 if isinstance(deco, ast.Name) and deco.id == 'specfn':
                     self.specfns[s.name] = s
                 elif isinstance(deco, ast.Call) and isinstance(deco.func, ast.Name):
-                    kw = {k.arg: ast.literal_eval(k.value) for k in deco.keywords}
+                    kw = {k.arg: self._lit(k.value) for k in deco.keywords}
                     if deco.func.id == 'contract':
-                        tgt = ast.literal_eval(deco.args[0])
+                        tgt = self._lit(deco.args[0])
                         tgts = tgt if isinstance(tgt, (list, tuple)) else [tgt]
                         for t in tgts:
                             c = Contract(t, s, kw.get('props', []), m, kw)
@@ -132,10 +132,19 @@ class Specs:
                     elif deco.func.id == 'scan':
                         self.scans.append((s, kw))
                     elif deco.func.id == 'loops':
-                        tgt = ast.literal_eval(deco.args[0])
-                        self.loops.setdefault(tgt, []).append((s, kw))
+                        tgt = self._lit(deco.args[0])
+                        for t in (tgt if isinstance(tgt, (list, tuple)) else [tgt]):
+                            self.loops.setdefault(t, []).append((s, kw))
             elif isinstance(s, ast.Assign) and len(s.targets) == 1 and isinstance(s.targets[0], ast.Name):
                 self.consts[s.targets[0].id] = s.value
+
+    def _lit(self, node):
+        "literal, or a module-level constant name of the contract file"
+        if isinstance(node, ast.Name) and node.id in self.consts:
+            return ast.literal_eval(self.consts[node.id])
+        if isinstance(node, ast.BinOp) and isinstance(node.op, ast.Add):
+            return list(self._lit(node.left)) + list(self._lit(node.right))
+        return ast.literal_eval(node)
 
     def contract_for(self, qualname):
         cs = self.contracts.get(qualname)
